@@ -274,6 +274,9 @@ def r3(rr, repo):
         rr.ob(f'{fname}: the user sub-pattern excludes only ":" and "@"', u_excl == {':', '@'}, mod, st, witness=str(sorted(u_excl) if u_excl is not None else None), key=f'user-class|{fname}')
         rr.ob(f'{fname}: the user part may be empty ("scheme://:password@host" is valid userinfo and still carries a password)', user_rep[1][0] == 0, mod, st,
               witness=f'user repeat minimum {user_rep[1][0]}', key=f'user-may-be-empty|{fname}')
+        host_rep = toks[9]
+        rr.ob(f'{fname}: the host after the "@" may be empty ("scheme://user:password@/path" is valid and still carries the credential)', host_rep[1][0] == 0, mod, st,
+              witness=f'host repeat minimum {host_rep[1][0]}', key=f'host-may-be-empty|{fname}')
         rr.ob(f'{fname}: the password may be empty or of any length', pw_rep[1][0] == 0 and pw_rep[1][1] >= 65535, mod, st, witness=f'password repeat {pw_rep[1][0]}..{pw_rep[1][1]}', key=f'pwd-any-length|{fname}')
         if 'users' in fname:
             rr.ob(f'{fname}: the user name lies in the masked region too', user_rep[2] == 'mask', mod, st, key=f'user-masked|{fname}')
